@@ -124,6 +124,23 @@ HasLonRange(s) == s = 7
 LonLo(s) == -180
 LonHi(s) == 180
 
+\* ---- scale: every conversion (and shiftlon) works element by element, so it commutes with concatenation ----
+\* A call on a million points is decided from the call on a few hundred: the array is the small point list
+\* repeated (TileSeq), and the law says the result is the small result repeated.  FramesMC checks the law on a
+\* small scope for an uninterpreted elementwise function and for an implementation-shaped block loop.
+TileSeq(s, n)    == [i \in 1..n |-> s[((i - 1) % Len(s)) + 1]]
+MapSeq(F(_), s)  == [i \in DOMAIN s |-> F(s[i])]
+\* the same map computed in blocks of B elements, each block written back at its own offset
+BlockMap(F(_), s, B) ==
+    LET nb == (Len(s) + B - 1) \div B
+        blk(j) == SubSeq(s, (j - 1) * B + 1, VMin2(j * B, Len(s)))
+        RECURSIVE cat(_)
+        cat(j) == IF j > nb THEN <<>> ELSE MapSeq(F, blk(j)) \o cat(j + 1)
+    IN cat(1)
+\* a large result obeys the law when it has the right length and every element agrees with the small result
+\* (conversions: on the sky to 1e-9 degree - vector lanes may differ in the last bit; shiftlon: bit for bit)
+ScaleTol9 == 1
+
 \* ==================================================================================
 \* B. decimal angles, documented constants, anchors, input points
 \*    A decimal angle is <<hi, lo>> = hi*1e-6 + lo*1e-12 degrees, 0 <= lo < 1e6
